@@ -62,13 +62,22 @@ def run(ctx):
     rng = ctx.rng
     bad = []
     for (a, b) in [(1, 5), (2, 5), (3, 4), (4, 4), (5, 1), (5, 5), (3, 5)]:
-        bad.append({"c1": ic.rand_curve(rng, a), "c2": ic.rand_curve(rng, b), "why": "unsupported degree pair %d-%d" % (a, b)})
+        c1, c2 = ic.rand_curve(rng, a), ic.rand_curve(rng, b)
+        # plant a common point so that the control boxes overlap: with disjoint boxes the strategy CAN answer (empty) before
+        # it looks at the degrees, and a normal return is right
+        dx, dy = c1[0][0] - c2[0][-1], c1[1][0] - c2[1][-1]
+        c2 = [[x + dx for x in c2[0]], [y + dy for y in c2[1]]]
+        bad.append({"c1": c1, "c2": c2, "why": "unsupported degree pair %d-%d" % (a, b)})
     par = [[F(0), F(1), F(3)], [F(0), F(2), F(1)]]
     bad.append({"c1": par, "c2": io.specialize_rows(par, F(1, 4), F(3, 4)), "why": "coincident curves"})
 
     def judge_bad(c, op, cfg, raw):
         if "exc" in raw and raw["exc"] in ("NotImplementedError", "UnsupportedDegree"):   # UnsupportedDegree subclasses NotImplementedError
             return None
+        box = lambda c_: [(min(r), max(r)) for r in c_]
+        b1, b2 = box(c["c1"]), box(c["c2"])
+        if "ok" in raw and any(b1[k][1] < b2[k][0] or b2[k][1] < b1[k][0] for k in range(2)):
+            return None         # disjoint control boxes: the empty answer is available without the algebraic solve
         return "%s: expected NotImplementedError, got %s" % (c["why"], raw.get("exc") or "a normal return")
     sweep(ctx, "algebraic_refuses", bad, [("Curve.intersect", ic.intersect_args("ALGEBRAIC"))], judge_bad)
     ctx.samples.append({"sweep": "strategies_agree", "case": cases[0] if cases else {}})
